@@ -2,8 +2,7 @@
 
 package proc
 
-// /verif C36 accessors: TxActor admission (handleTransaction / isValidSender) and the permitted-address cache with its
-// wall-clock seam `lastTime`.
+// /verif C36 accessors: TxActor admission (handleTransaction / isValidSender) and the wall-clock seam `lastTime`.
 
 import (
 	"github.com/polynetwork/poly/common"
@@ -28,26 +27,16 @@ func (s *TXPoolServer) VerifC36Submit(sender tc.SenderType, t *tx.Transaction, c
 func (s *TXPoolServer) VerifC36Tracked(h common.Uint256) bool { return s.checkTx(h) }
 func (s *TXPoolServer) VerifC36Stats() []uint64               { return s.getStats() }
 
-// VerifC36SetCache installs a cache content and refresh stamp; VerifC36Cache reads them back.
-func VerifC36SetCache(addrs []common.Address, last int64) {
+// The wall-clock seam of updatePermittedAddrMap: the refresh stamp. Nothing else of the package state is touched by
+// the driver (the live process carries whatever caches it has across the whole history).
+func VerifC36SetStamp(last int64) {
 	lock.Lock()
 	defer lock.Unlock()
-	for k := range permittedAddrMap {
-		delete(permittedAddrMap, k)
-	}
-	for _, a := range addrs {
-		permittedAddrMap[a] = true
-	}
 	lastTime = last
 }
 
-func VerifC36Cache() (addrs []common.Address, last int64) {
+func VerifC36Stamp() int64 {
 	lock.RLock()
 	defer lock.RUnlock()
-	for k, v := range permittedAddrMap {
-		if v {
-			addrs = append(addrs, k)
-		}
-	}
-	return addrs, lastTime
+	return lastTime
 }
